@@ -10,23 +10,33 @@ package lib
 import (
 	"bufio"
 	"bytes"
+	"context"
 	"crypto/hmac"
 	"crypto/sha256"
 	"encoding/hex"
+	"errors"
 	"fmt"
 	"io"
 	golog "log"
 	"net"
+	"net/http"
+	"net/http/httptest"
 	"os"
+	"os/exec"
 	"path/filepath"
+	"runtime"
 	"sort"
+	"strconv"
 	"strings"
+	"sync"
+	"sync/atomic"
 	"testing"
 	"time"
 
 	"github.com/refraction-networking/conjure/internal/vlib"
 	"github.com/refraction-networking/conjure/internal/vlibc11"
 	"github.com/refraction-networking/conjure/pkg/core"
+	pdtls "github.com/refraction-networking/conjure/pkg/dtls"
 	"github.com/refraction-networking/conjure/pkg/station/log"
 	"github.com/refraction-networking/conjure/pkg/transports"
 	"github.com/refraction-networking/conjure/pkg/transports/connecting/dtls"
@@ -41,7 +51,27 @@ import (
 
 type c11NotLive struct{}
 
-func (c11NotLive) PhantomIsLive(addr string, port uint16) (bool, error) { return false, nil }
+var c11Probes int64 // liveness probes asked for: the sign that a registration got through the ingest path
+
+func (c11NotLive) PhantomIsLive(addr string, port uint16) (bool, error) {
+	atomic.AddInt64(&c11Probes, 1)
+	return false, nil
+}
+
+// the surroundings of a connecting transport: no tun device, no listener, statistics that go nowhere
+type c11DNAT struct{}
+
+func (c11DNAT) AddEntry(*net.IP, uint16, *net.IP, uint16) error {
+	return errors.New("no tun device in the harness")
+}
+
+type c11ConnStats struct{}
+
+func (c11ConnStats) AddCreatedConnecting(uint, string, string)               {}
+func (c11ConnStats) AddCreatedToSuccessfulConnecting(uint, string, string)   {}
+func (c11ConnStats) AddCreatedToTimeoutConnecting(uint, string, string)      {}
+func (c11ConnStats) AddSuccessfulToDiscardedConnecting(uint, string, string) {}
+func (c11ConnStats) AddOtherFailConnecting(uint, string, string)             {}
 func (c11NotLive) PrintAndReset(logger *log.Logger)                      {}
 func (c11NotLive) PrintStats(logger *log.Logger)                         {}
 func (c11NotLive) Reset()                                                {}
@@ -74,7 +104,9 @@ func (s *c11Station) fail(entry string, res vlibc11.Result, replay string) {
 	s.out.OracleFail(res.Sig(entry), entry+": "+res.What(), replay)
 }
 
-func newC11Station(t *testing.T, out *vlib.Out) *c11Station {
+// connecting: the DTLS transport is the real connecting transport (Connect runs, in the goroutines the
+// station starts for it); otherwise it is only there to be identified and to parse parameters
+func newC11Station(t *testing.T, out *vlib.Out, connecting bool) *c11Station {
 	root := os.Getenv("VERIF_SCRATCH_REPO")
 	if root == "" {
 		root = "../../.."
@@ -93,7 +125,7 @@ func newC11Station(t *testing.T, out *vlib.Out) *c11Station {
 	devnull, _ := os.OpenFile(os.DevNull, os.O_WRONLY, 0)
 	saved := os.Stdout
 	os.Stdout = devnull // NewRegistrationManager logs to os.Stdout
-	rm := NewRegistrationManager(&RegConfig{EnableIPv4: true, EnableIPv6: true})
+	rm := NewRegistrationManager(&RegConfig{EnableIPv4: true, EnableIPv6: true, ConnectingStats: c11ConnStats{}})
 	os.Stdout = saved
 	if rm == nil {
 		t.Fatal("no registration manager")
@@ -114,7 +146,13 @@ func newC11Station(t *testing.T, out *vlib.Out) *c11Station {
 	_ = rm.AddTransport(pb.TransportType_Min, min.Transport{})
 	_ = rm.AddTransport(pb.TransportType_Obfs4, obfs4.Transport{})
 	_ = rm.AddTransport(pb.TransportType_Prefix, pt)
-	_ = rm.AddTransport(pb.TransportType_DTLS, dtls.Transport{}) // identification and parameters only; never connected
+	if connecting {
+		_ = rm.AddTransport(pb.TransportType_DTLS, dtls.NewVerifTransport(c11DNAT{}, func(context.Context, *pdtls.Config) (net.Conn, error) {
+			return nil, errors.New("no listener in the harness")
+		}))
+	} else {
+		_ = rm.AddTransport(pb.TransportType_DTLS, dtls.Transport{}) // identification and parameters only; never connected
+	}
 	return s
 }
 
@@ -173,7 +211,7 @@ func (s *c11Station) validWrapper(secret []byte, tr pb.TransportType, params pro
 		RegistrationAddress: []byte{10, 9, 8, 7}}
 }
 
-func (s *c11Station) zmq() {
+func (s *c11Station) zmq(t *testing.T) {
 	// registrations that really exist, for the flights below
 	for i := 0; i < 12; i++ {
 		secret := s.r.Bytes(32)
@@ -198,17 +236,53 @@ func (s *c11Station) zmq() {
 	if len(s.known) < 8 {
 		s.out.Note(fmt.Sprintf("only %d of 12 well-formed registrations were admitted", len(s.known)))
 	}
+	// everything else is ingested in a child process, one message at a time, with the DTLS transport
+	// connected for real: the station starts goroutines of its own for connecting transports and for
+	// sharing registrations, and a panic there cannot be recovered - it takes the process down, and the
+	// parent names the message that did it
+	var msgs [][]byte
 	n := vlib.Budget(12000, 250000)
 	for i := 0; i < n; i++ {
 		w := s.g.Wrapper(i)
 		b := vlibc11.Marshal(w)
-		s.ingest(b, "structured")
+		msgs = append(msgs, b)
 		if i%3 == 0 {
-			s.ingest(s.g.Mutate(b), "mutated")
+			msgs = append(msgs, s.g.Mutate(b))
 		}
 	}
+	// DTLS registrations that are admitted (known generation, both families), with every combination of
+	// the optional client addresses present / absent / of odd length
+	for i := 0; i < vlib.Budget(300, 4000); i++ {
+		var p *pb.DTLSTransportParams
+		if i%7 != 0 {
+			p = &pb.DTLSTransportParams{}
+			if i&1 != 0 {
+				p.SrcAddr4 = &pb.Addr{IP: s.g.Bytes(-1, 0, 4, 4, 16), Port: proto.Uint32(uint32(s.r.Intn(70000)))}
+			}
+			if i&2 != 0 {
+				p.SrcAddr6 = &pb.Addr{IP: s.g.Bytes(-1, 0, 16, 16, 4), Port: proto.Uint32(uint32(s.r.Intn(70000)))}
+			}
+			if i&4 != 0 {
+				p.RandomizeDstPort = proto.Bool(s.r.Bool())
+			}
+		}
+		var w *pb.C2SWrapper
+		if p == nil {
+			w = s.validWrapper(s.r.Bytes(32), pb.TransportType_DTLS, nil, 1, i%3 != 0)
+		} else {
+			w = s.validWrapper(s.r.Bytes(32), pb.TransportType_DTLS, p, 1, i%3 != 0)
+		}
+		if i%5 == 0 {
+			w.RegistrationAddress = append(bytes.Repeat([]byte{0x20, 0x01}, 7), 0, 1) // an IPv6 client: v6 phantom only
+		}
+		if i%11 == 0 {
+			src := pb.RegistrationSource_Detector // shared with the other stations by a goroutine of its own
+			w.RegistrationSource = &src
+		}
+		msgs = append(msgs, vlibc11.Marshal(w))
+	}
 	for i := 0; i < vlib.Budget(3000, 50000); i++ {
-		s.ingest(s.r.Bytes(s.r.Intn(80)), "random")
+		msgs = append(msgs, s.r.Bytes(s.r.Intn(80)))
 	}
 	// a well-formed message with one field bent at a time
 	base := vlibc11.Marshal(s.validWrapper(s.r.Bytes(32), pb.TransportType_Min, &pb.GenericTransportParams{}, 1, true))
@@ -216,10 +290,11 @@ func (s *c11Station) zmq() {
 		for _, v := range []byte{0, 0xff, base[i] ^ 0x80, base[i] + 1} {
 			b := append([]byte(nil), base...)
 			b[i] = v
-			s.ingest(b, "bent")
+			msgs = append(msgs, b)
 		}
-		s.ingest(base[:i], "cut")
+		msgs = append(msgs, base[:i])
 	}
+	s.zmqChild(t, msgs, true)
 }
 
 // ---------------------------------------------------------------------------------------------
@@ -529,8 +604,370 @@ func (s *c11Station) params() {
 }
 
 // ---------------------------------------------------------------------------------------------
+// 4. the ingest path in a child process: one message at a time, then the worker pipeline
 
-func (s *c11Station) replay(path string) {
+// c11Busy: goroutines inside the code under test (not the harness's own) that were not there before;
+// known holds the goroutines that belong to the process for good (statistics loops started on first use)
+func c11Busy(known map[string]bool) (ids []string, sample string) {
+	buf := make([]byte, 1<<21)
+	buf = buf[:runtime.Stack(buf, true)]
+	for _, g := range strings.Split(string(buf), "\n\n") {
+		if !strings.HasPrefix(g, "goroutine ") {
+			continue
+		}
+		id := strings.Fields(g)[1]
+		if known[id] {
+			continue
+		}
+		if strings.Contains(g, "refraction-networking/conjure/pkg/") && !strings.Contains(g, "zz_verif") && !strings.Contains(g, "TestVerifC11") {
+			ids = append(ids, id)
+			sample = g
+		}
+	}
+	return ids, sample
+}
+
+// c11Settle waits until everything the last message set off has ended, so that a panic in a goroutine
+// the station started is charged to the message that started it. 2 s is slow, 15 s is a hang.
+func c11Settle(base int, known map[string]bool, progress *os.File, i int) {
+	start, slow := time.Now(), false
+	for runtime.NumGoroutine() > base {
+		d := time.Since(start)
+		if d > 50*time.Millisecond {
+			ids, sample := c11Busy(known)
+			if len(ids) == 0 {
+				return // what is left does not belong to the code under test (idle connections, timers)
+			} else if d > 15*time.Second {
+				fmt.Fprintf(progress, "HANG %d %s\n", i, strings.ReplaceAll(sample, "\n", " ⏎ "))
+				for _, id := range ids { // reported once
+					known[id] = true
+				}
+				return
+			}
+			if d > 2*time.Second && !slow {
+				slow = true
+				fmt.Fprintf(progress, "SLOW %d\n", i)
+			}
+			time.Sleep(2 * time.Millisecond)
+			continue
+		}
+		time.Sleep(20 * time.Microsecond)
+	}
+}
+
+func TestVerifC11StationChild(t *testing.T) {
+	inPath := os.Getenv("VERIF_C11S_IN")
+	if inPath == "" {
+		t.Skip("child of TestVerifC11Station only")
+	}
+	golog.SetOutput(io.Discard)
+	start, _ := strconv.Atoi(os.Getenv("VERIF_C11S_START"))
+	raw, err := os.ReadFile(inPath)
+	if err != nil {
+		t.Fatal(err)
+	}
+	var in [][]byte
+	for _, l := range strings.Split(strings.TrimRight(string(raw), "\n"), "\n") {
+		b, _ := hex.DecodeString(l)
+		in = append(in, b)
+	}
+	progress, err := os.OpenFile(os.Getenv("VERIF_C11S_PROGRESS"), os.O_CREATE|os.O_WRONLY|os.O_TRUNC, 0o644)
+	if err != nil {
+		t.Fatal(err)
+	}
+	defer progress.Close()
+	out := vlib.Open("C11schild")
+	s := newC11Station(t, out, true)
+	// registrations that arrive from the detector are shared with the other stations over HTTP, by a
+	// goroutine the station starts; the endpoint is a local server that accepts everything
+	share := httptest.NewServer(http.HandlerFunc(func(w http.ResponseWriter, r *http.Request) {
+		_, _ = io.Copy(io.Discard, r.Body)
+		w.WriteHeader(http.StatusNoContent)
+	}))
+	defer share.Close()
+	if tr, ok := http.DefaultTransport.(*http.Transport); ok {
+		tr.DisableKeepAlives = true
+	}
+	s.rm.EnableShareOverAPI = true
+	s.rm.PreshareEndpoint = share.URL
+	// the resolver: never the network. What is recorded is whether the station asked for a name at all
+	// and how long the attempt was allowed to take (the deadline of the context the dial gets)
+	var dials, worst int64
+	vlibc11.NoNetworkResolver(func(rem int64) {
+		atomic.AddInt64(&dials, 1)
+		for { // the longest a single attempt may take; -1 (no deadline) beats everything
+			w := atomic.LoadInt64(&worst)
+			nw := w
+			if rem == -1 || w == -1 {
+				nw = -1
+			} else if rem > w {
+				nw = rem
+			}
+			if nw == w || atomic.CompareAndSwapInt64(&worst, w, nw) {
+				break
+			}
+		}
+	})
+	hist := map[string]int{}
+	var hmu sync.Mutex
+	count := func(k string) { hmu.Lock(); hist[k]++; hmu.Unlock() }
+	// warm-up: whatever the station starts once and keeps (statistics loops) is there before the count
+	_ = Stat()
+	for _, tr := range []pb.TransportType{pb.TransportType_Min, pb.TransportType_DTLS} {
+		for _, reg := range s.ingest(vlibc11.Marshal(s.validWrapper(s.r.Bytes(32), tr, nil, 1, true)), "warm-up") {
+			_ = reg
+		}
+	}
+	s.ingest([]byte{0xff}, "warm-up")
+	time.Sleep(300 * time.Millisecond)
+	known := map[string]bool{}
+	ids, _ := c11Busy(known)
+	for _, id := range ids {
+		known[id] = true
+	}
+	base := runtime.NumGoroutine() + 1 // + the goroutine Guard runs the call in, which may not have gone yet
+	if os.Getenv("VERIF_C11S_DIRECT") != "0" {
+		for i := start; i < len(in); i++ {
+			fmt.Fprintf(progress, "%d\n", i)
+			atomic.StoreInt64(&dials, 0)
+			atomic.StoreInt64(&worst, 0)
+			msg := in[i]
+			res := vlibc11.Guard(func() {
+				regs, err := s.rm.parseRegMessage(msg)
+				if err != nil {
+					count("zmq:error")
+					return
+				}
+				count(fmt.Sprintf("zmq:regs-%d", len(regs)))
+				for _, reg := range regs {
+					if reg == nil {
+						continue
+					}
+					s.rm.ingestRegistration(reg)
+					_ = reg.String()
+					if w := reg.GenerateC2SWrapper(); w != nil {
+						_, _ = proto.Marshal(w)
+					}
+					if _, ok := s.rm.GetConnectingTransports()[reg.Transport]; ok {
+						count("zmq:connecting-transport")
+					}
+				}
+			})
+			if res.Bad() {
+				fmt.Fprintf(progress, "BAD %d\t%s\t%s\n", i, res.Sig("zmq-ingest"), res.What())
+			}
+			c11Settle(base, known, progress, i)
+			if d := atomic.LoadInt64(&dials); d > 0 {
+				fmt.Fprintf(progress, "RESOLVE %d %d %d\n", i, d, atomic.LoadInt64(&worst))
+			}
+		}
+		fmt.Fprintf(progress, "DIRECT-DONE\n")
+	}
+	if os.Getenv("VERIF_C11S_PIPELINE") == "0" {
+		fmt.Fprintf(progress, "DONE\n")
+		return
+	}
+	// the pipeline itself: malformed messages of every kind in bulk, and after each batch a well-formed
+	// registration must still get through to the liveness probe (a worker that ends on a message it
+	// cannot use leaves the station deaf once all workers have met one)
+	const workers = 20
+	s.rm.IngestWorkerCount = workers
+	ctx, cancel := context.WithCancel(context.Background())
+	regChan := make(chan interface{})
+	wg := new(sync.WaitGroup)
+	wg.Add(1)
+	go s.rm.HandleRegUpdates(ctx, regChan, wg)
+	noPayload := vlibc11.Marshal(&pb.C2SWrapper{SharedSecret: s.r.Bytes(32)})
+	unknownGen := vlibc11.Marshal(s.validWrapper(s.r.Bytes(32), pb.TransportType_Min, &pb.GenericTransportParams{}, 4000000, false))
+	unknownTr := vlibc11.Marshal(s.validWrapper(s.r.Bytes(32), pb.TransportType(77), nil, 1, false))
+	shortSecret := vlibc11.Marshal(s.validWrapper(s.r.Bytes(3), pb.TransportType_Min, nil, 1, false))
+	badCovert := s.validWrapper(s.r.Bytes(32), pb.TransportType_Min, nil, 1, false)
+	badCovert.RegistrationPayload.CovertAddress = proto.String("1.2.3.4")
+	kinds := []struct {
+		name string
+		msg  func() []byte
+	}{
+		{"random-bytes", func() []byte { return s.r.Bytes(1 + s.r.Intn(60)) }},
+		{"empty", func() []byte { return nil }},
+		{"no-payload", func() []byte { return noPayload }},
+		{"unknown-generation", func() []byte { return unknownGen }},
+		{"unknown-transport", func() []byte { return unknownTr }},
+		{"short-secret", func() []byte { return shortSecret }},
+		{"malformed-covert", func() []byte { return vlibc11.Marshal(badCovert) }},
+		{"truncated", func() []byte { return unknownGen[:len(unknownGen)/2] }},
+		{"structured", func() []byte { return vlibc11.Marshal(s.g.Wrapper(s.r.Intn(1000))) }},
+		{"mutated", func() []byte { return s.g.Mutate(vlibc11.Marshal(s.g.Wrapper(s.r.Intn(1000)))) }},
+	}
+	for _, k := range kinds {
+		var sample []byte
+		for i := 0; i < 3*workers; i++ {
+			sample = k.msg()
+			regChan <- sample
+			if i%workers == workers-1 {
+				time.Sleep(time.Millisecond) // let the workers take what the distributor holds
+			}
+		}
+		before := atomic.LoadInt64(&c11Probes)
+		alive := false
+		for deadline := time.Now().Add(15 * time.Second); time.Now().Before(deadline) && !alive; {
+			regChan <- vlibc11.Marshal(s.validWrapper(s.r.Bytes(32), pb.TransportType_Min, &pb.GenericTransportParams{}, 1, false))
+			time.Sleep(time.Millisecond)
+			alive = atomic.LoadInt64(&c11Probes) > before
+		}
+		if alive {
+			count("pipeline:alive-after-" + k.name)
+		} else {
+			fmt.Fprintf(progress, "PIPELINE-DEAD %s %s\n", k.name, hex.EncodeToString(sample))
+		}
+	}
+	cancel()
+	stopped := make(chan struct{})
+	go func() { wg.Wait(); close(stopped) }()
+	select {
+	case <-stopped:
+		count("pipeline:stopped")
+	case <-time.After(15 * time.Second):
+		fmt.Fprintf(progress, "PIPELINE-STUCK\n")
+	}
+	hmu.Lock()
+	for k, v := range hist {
+		fmt.Fprintf(progress, "COUNT %s %d\n", k, v)
+	}
+	hmu.Unlock()
+	fmt.Fprintf(progress, "DONE\n")
+}
+
+// zmqChild feeds msgs to children until all are dealt with; a child that dies names the message
+func (s *c11Station) zmqChild(t *testing.T, msgs [][]byte, pipeline bool) {
+	dir := t.TempDir()
+	inPath, progPath := filepath.Join(dir, "in.txt"), filepath.Join(dir, "progress.txt")
+	if o := os.Getenv("VERIF_OUT"); o != "" { // kept with the other outputs of the run (check --keep)
+		inPath, progPath = filepath.Join(o, "C11a.child-in.txt"), filepath.Join(o, "C11a.child-progress.txt")
+	}
+	var sb strings.Builder
+	for _, d := range msgs {
+		sb.WriteString(hex.EncodeToString(d))
+		sb.WriteByte('\n')
+	}
+	if err := os.WriteFile(inPath, []byte(sb.String()), 0o644); err != nil {
+		t.Fatal(err)
+	}
+	resolverReported := false
+	start := 0
+	for round := 0; round < 25; round++ {
+		cmd := exec.Command(os.Args[0], "-test.run=^TestVerifC11StationChild$", "-test.timeout=25m")
+		cmd.Env = append(os.Environ(), "VERIF_C11S_IN="+inPath, "VERIF_C11S_PROGRESS="+progPath,
+			"VERIF_C11S_START="+strconv.Itoa(start), "VERIF_OUT="+dir)
+		if start >= len(msgs) {
+			cmd.Env = append(cmd.Env, "VERIF_C11S_DIRECT=0")
+		}
+		if !pipeline {
+			cmd.Env = append(cmd.Env, "VERIF_C11S_PIPELINE=0")
+		}
+		var stderr bytes.Buffer
+		cmd.Stderr = &stderr
+		cmd.Stdout = &stderr
+		err := cmd.Run()
+		prog, _ := os.ReadFile(progPath)
+		last, done, directDone := start-1, false, false
+		sc := bufio.NewScanner(bytes.NewReader(prog))
+		sc.Buffer(make([]byte, 1<<20), 1<<24)
+		for sc.Scan() {
+			l := sc.Text()
+			f := strings.Fields(l)
+			switch {
+			case strings.HasPrefix(l, "BAD "):
+				p := strings.SplitN(strings.TrimPrefix(l, "BAD "), "\t", 3)
+				if k, e := strconv.Atoi(p[0]); e == nil && len(p) == 3 && k < len(msgs) {
+					s.out.OracleFail(p[1], "zmq-ingest: "+p[2], "zmq|"+vlib.Hex(msgs[k]))
+				}
+			case strings.HasPrefix(l, "HANG ") && len(f) >= 2:
+				if k, e := strconv.Atoi(f[1]); e == nil && k < len(msgs) {
+					s.out.OracleFail("C11:zmq-ingest:hang-in-goroutine", "a goroutine the station started for a registration was still running after 15 s: "+strings.Join(f[2:], " "), "zmq|"+vlib.Hex(msgs[k]))
+				}
+			case strings.HasPrefix(l, "SLOW "):
+				s.out.Count("zmq:slow")
+			case strings.HasPrefix(l, "RESOLVE ") && len(f) == 4:
+				s.out.Count("zmq:resolver-asked")
+				k, _ := strconv.Atoi(f[1])
+				ms, _ := strconv.Atoi(f[3])
+				if (ms == -1 || ms > 2000) && !resolverReported && k < len(msgs) {
+					resolverReported = true
+					lim := "no deadline at all"
+					if ms >= 0 {
+						lim = fmt.Sprintf("%d ms for a single attempt, the resolver's own limit", ms)
+					}
+					s.out.OracleFail("C11:zmq-ingest:resolver-without-deadline",
+						"the ingest worker resolves the covert host name a client supplied ("+f[2]+" resolver dials) and sets no deadline of its own: "+lim+"; a name server that does not answer holds the worker for all attempts", "zmq|"+vlib.Hex(msgs[k]))
+				}
+			case strings.HasPrefix(l, "PIPELINE-DEAD ") && len(f) == 3:
+				s.out.OracleFail("C11:zmq-pipeline:workers-lost-on-bad-input", "after a batch of "+f[1]+" messages no well-formed registration reached the liveness probe for 15 s: the ingest workers are gone or stuck", "zmqpipe|"+f[1]+"|"+f[2])
+			case l == "PIPELINE-STUCK":
+				s.out.OracleFail("C11:zmq-pipeline:does-not-stop", "HandleRegUpdates had not returned 15 s after its context was cancelled", "zmqpipe|stop")
+			case strings.HasPrefix(l, "COUNT ") && len(f) == 3:
+				n, _ := strconv.Atoi(f[2])
+				for ; n > 0; n-- {
+					s.out.Count(f[1])
+				}
+			case l == "DIRECT-DONE":
+				directDone = true
+			case l == "DONE":
+				done = true
+			default:
+				if k, e := strconv.Atoi(l); e == nil {
+					last = k
+				}
+			}
+		}
+		for i := start; i <= last; i++ {
+			s.out.Checked()
+		}
+		if done && err == nil {
+			s.out.Count("zmq-child:completed")
+			return
+		}
+		if last < start && !directDone && start < len(msgs) {
+			s.out.OracleFail("C11:zmq-ingest:child-did-not-run", "the child process that drives the ingest path failed before the first message", stderr.String())
+			return
+		}
+		sig, what := c11CrashSig(stderr.String())
+		if directDone || start >= len(msgs) {
+			s.out.OracleFail(strings.Replace(sig, "zmq-ingest", "zmq-pipeline", 1), "the process died while the worker pipeline was running; "+what, "zmqpipe|crash")
+			return
+		}
+		s.out.OracleFail(sig, "the process died while (or in a goroutine started for) this message was handled; "+what, "zmq|"+vlib.Hex(msgs[last]))
+		start = last + 1
+	}
+}
+
+// c11CrashSig: class and innermost repository function of a Go panic report
+func c11CrashSig(report string) (string, string) {
+	msg := "unknown"
+	for _, l := range strings.Split(report, "\n") {
+		if strings.HasPrefix(l, "panic: ") || strings.HasPrefix(l, "fatal error: ") {
+			msg = strings.TrimPrefix(strings.TrimPrefix(l, "panic: "), "fatal error: ")
+			break
+		}
+	}
+	frame := "unknown"
+	for _, l := range strings.Split(report, "\n") {
+		if strings.Contains(l, "zz_verif") || strings.Contains(l, "internal/vlib") || strings.HasPrefix(l, "created by") {
+			continue
+		}
+		if i := strings.Index(l, "refraction-networking/conjure/pkg/"); i >= 0 && strings.Contains(l, "(") {
+			frame = l[i+len("refraction-networking/conjure/"):]
+			if j := strings.LastIndex(frame, "("); j > 0 {
+				frame = frame[:j]
+			}
+			break
+		}
+	}
+	return "C11:zmq-ingest:" + vlibc11.Class(msg) + "@" + frame, "panic: " + msg + " in " + frame
+}
+
+// ---------------------------------------------------------------------------------------------
+
+func (s *c11Station) replay(t *testing.T, path string) {
 	f, err := os.Open(path)
 	if err != nil {
 		panic(err)
@@ -554,6 +991,9 @@ func (s *c11Station) replay(path string) {
 		switch {
 		case p[0] == "zmq":
 			s.ingest(unhex(p[1]), "replay")
+			s.zmqChild(t, [][]byte{unhex(p[1])}, false)
+		case p[0] == "zmqpipe":
+			s.zmqChild(t, nil, true)
 		case p[0] == "ingress" && len(p) >= 3 && (p[1] == "min" || p[1] == "prefix" || p[1] == "obfs4"):
 			s.offer(unhex(p[2]), net.ParseIP("192.122.190.250"))
 		default:
@@ -566,14 +1006,15 @@ func TestVerifC11Station(t *testing.T) {
 	golog.SetOutput(io.Discard)
 	out := vlib.Open("C11a")
 	defer out.Close()
-	s := newC11Station(t, out)
+	vlibc11.NoNetworkResolver(nil)
+	s := newC11Station(t, out, false)
 	if rp := vlib.Replay(); rp != "" {
 		// one fixed case so that the driver always has something to answer, then the file
 		s.wrap("min", min.Transport{}, nil, net.ParseIP("192.122.190.250"), "ingress|min|-|")
-		s.replay(rp)
+		s.replay(t, rp)
 		return
 	}
-	s.zmq()
+	s.zmq(t)
 	s.flights()
 	s.params()
 }
